@@ -1,5 +1,7 @@
 SPECIFICATION TraceSpec
 CONSTANT Points <- TrPoints
+CONSTANT South <- TrSouth
+CONSTANT Near <- TrNear
 CONSTANT MaxVals = 40
 CONSTRAINT Consumed
 INVARIANT TypeOK
